@@ -46,15 +46,16 @@ Section Closed.
     all: destruct d; [done|lia].
   Qed.
 
-  Definition inv_bp (s : state) : Prop := dropped s = false -> s.(notify) = true -> s.(bp) = None.
+  Definition inv_bp (s : state) : Prop := dropped s = false -> is_Some s.(notify) -> s.(bp) = None.
   Lemma inv_bp_init inputs ext : inv_bp (init F inputs ext).
-  Proof. done. Qed.
+  Proof. by intros _ [? [=]]. Qed.
   Lemma step_inv_bp s a s' :
     inv_depth s -> inv_notify s -> inv_bp s -> step F f s a = Some s' -> inv_bp s'.
   Proof.
     intros Hdp (Hn & _) Hb Hs. step_cases Hs.
     all: unfold inv_bp, inv_depth, dropped in *; cbn in *.
     all: try done.
+    all: try (by intros _ [? [=]]).
     all: intros H1 H2; saturate; bool_hyps; subst; cbn in *; first [done | lia].
   Qed.
 End Closed.
